@@ -95,6 +95,9 @@ func bytesJSON(s string) []any {
 // name, e.g. "a", "a/0", "a/k".
 type Repr struct {
 	hints map[string]string
+	// with the hint "@share", equal arrays and maps of one environment are one Go value, reachable along several paths
+	// (bindings are graphs, not trees: a page object listed in two collections)
+	shared map[string]any
 }
 
 func (r *Repr) hint(path string) string {
@@ -128,6 +131,24 @@ var _ liquid.Drop = testDrop{}
 // realise builds the Go value for the tagged JSON value v.
 func realise(v J, r *Repr, path string) (any, error) {
 	h := r.hint(path)
+	if k := jstr(v, "k"); r != nil && r.hints["@share"] != "" && (k == "arr" || k == "map") {
+		if r.shared == nil {
+			r.shared = map[string]any{}
+		}
+		key, _ := json.Marshal(v)
+		if x, ok := r.shared[string(key)]; ok {
+			return x, nil
+		}
+		x, err := realiseBase(v, r, path, "")
+		if err != nil {
+			return nil, err
+		}
+		if s, ok := x.([]any); ok && len(s) == 0 {
+			x = []any{} // (all empty slices made this way have one and the same address)
+		}
+		r.shared[string(key)] = x
+		return x, nil
+	}
 	base, err := realiseBase(v, r, path, h)
 	if err != nil {
 		return nil, err
@@ -450,6 +471,9 @@ func realiseBase(v J, r *Repr, path, h string) (any, error) {
 // pointers where a variable or a property lookup reaches them, numeric widths that hold the value exactly, typed
 // slices and fixed arrays for homogeneous arrays, string-keyed typed maps for homogeneous maps.
 func autoRepr(pairs []any, r *rand.Rand) J {
+	if r.Intn(5) == 0 {
+		return J{"@share": "1"} // equal arrays / maps as one shared Go value
+	}
 	hints := J{}
 	// (the statement names printing, comparison and arithmetic for the numeric widths - not loop modifiers and range
 	// endpoints, for which the generators use the variables i0..i3: those keep their width)
